@@ -18,6 +18,12 @@ def handle : Handler := fun j => do
     match Merge.mergeAll parts with
     | none => return err "index-error"
     | some (t, l) => return ok (Json.arr #[jNats t, jNats l])
+  | "regroup" =>
+    let parts ← (← arrOf (← j.getObjVal? "parts")).mapM part
+    let spans ← getNatList j "spans"
+    return ok (jList (fun (r : Option (List Nat × List Nat)) => match r with
+      | none => Json.null
+      | some (t, l) => Json.arr #[jNats t, jNats l]) (Merge.batchResults spans parts))
   | "windows" =>
     let w := Merge.windows (← getNat j "width") (← getNat j "mlw")
     return ok (jList (fun (p : Nat × Nat) => jNats [p.1, p.2]) w)
